@@ -124,14 +124,28 @@ pub fn detect_case_insensitive_fs(path: &Path) -> bool {
     let test_file_lower = temp_dir.path().join("test_case_a");
     let test_file_upper = temp_dir.path().join("test_case_A");
 
-    // Create file with lowercase name
-    if fs::write(&test_file_lower, b"test").is_err() {
-        return false;
+    // Create file with lowercase name; try to access it with the uppercase name
+    // (on a case-insensitive FS this succeeds). Assume case-sensitive if we can't test.
+    let case_insensitive = fs::write(&test_file_lower, b"test").is_ok()
+        && fs::metadata(&test_file_upper).is_ok();
+
+    // The probe directory lives in the user's tree: do not rely on the silent best-effort cleanup
+    // of `TempDir::drop`. Remove it explicitly, try once more if that fails, and say so if the
+    // directory really cannot be removed instead of leaving it behind unnoticed.
+    let probe_path = temp_dir.path().to_path_buf();
+    if temp_dir.close().is_err() {
+        if let Err(e) = fs::remove_dir_all(&probe_path) {
+            if probe_path.exists() {
+                eprintln!(
+                    "Warning: could not remove the temporary directory {}: {}",
+                    probe_path.display(),
+                    e
+                );
+            }
+        }
     }
 
-    // Try to access it with uppercase name
-    // On case-insensitive FS, this will succeed
-    fs::metadata(&test_file_upper).is_ok()
+    case_insensitive
 }
 
 /// Check if a filename is a Windows reserved name
